@@ -166,6 +166,16 @@ def _required_cfi_directives(
     if not displacement_map:
         return []
 
+    # A block that never had any contents (e.g. the empty block a patch's
+    # trailing label opens) is not deleting any instructions, so none of its
+    # directives describe the side effect of something that goes away.
+    if not block.size:
+        return [
+            directive
+            for _, directives in sorted(displacement_map.items())
+            for directive in directives
+        ]
+
     # We need to keep start/end proc directives and remember/restore state
     # directives, but we also want to drop anything between a balanced
     # start/end proc pair (including the start/end proc directives).
